@@ -392,7 +392,7 @@ def oracle(run):
     for i in range(run.budget(2, 20)):
         d, M = gen_case(rng)
         d = copy.deepcopy(d)
-        d["recipes"] = [r for r in d["recipes"] if not r.get("raw")] + copy.deepcopy(TWIN_RECIPES)
+        d["recipes"] = d["recipes"] + copy.deepcopy(TWIN_RECIPES)      # (nothing is removed: other documents may link to any recipe of the tree)
         run.case(("fresh-processes", gen_site.tree_sexp(d), M), True, kind="fresh-processes")
         seen = set()
         for sig, detail in check_fresh_processes(d, M, i):
